@@ -476,6 +476,16 @@ func (r *seqRunner) run() {
 				r.cnt["memsets_competing_with_pending_sibling"]++
 			}
 			r.logf("memset parent=%s h=%d {%s} -> %s", hx(parent.Root), h, kvStr(kvs), hx(root))
+			if r.rng.Chance(50) {
+				// the requester reuses its value buffers once MemSet has replied (requests travel in-process by reference):
+				// the pending update must own its content, whatever is committed later is what was handed in
+				for _, kv := range kvs {
+					for i := range kv.Value {
+						kv.Value[i] ^= 0x5a
+					}
+				}
+				r.cnt["memsets_whose_value_buffers_were_overwritten_afterwards"]++
+			}
 			if kvs == nil {
 				r.cnt["memsets_empty"]++
 				if !bytes.Equal(root, parent.Root) {
